@@ -15,7 +15,7 @@ META = dict(
     level_text='every combination of per-pool condition (connection / none / shut down), per-connection outcome of the USE (ok, invalid request, server error, connection lost) and completion order, for both pool classes, through the real Session._set_keyspace_for_all_pools, pool._set_keyspace_for_all_conns and Connection.set_keyspace_async; each combination is a forked symbolic choice decided by z3',
     level_note='task-level schedules; the node is scripted; transport/timers/executor faked',
     technique='symbolic execution (sx proxies) of the real keyspace-switch callback chain over solver-enumerated outcome vectors and completion orders + z3 validity per path',
-    bounds=dict(quick='1..3 pools (HostConnection) / 1..2 pools x 2 connections (HostConnectionPool), 3 pool conditions, 4 USE outcomes, every completion order; a failed switch is retried once with every node accepting (1-2 pools)',
+    bounds=dict(quick='1..3 pools (HostConnection) / 1..2 pools x 2 connections (HostConnectionPool), 3 pool conditions, 4 USE outcomes, every completion order; a failed switch is retried once with every node accepting (1-2 pools); membership-race: a node-down event removes a pool from the session at a boundary of the session lock inside _set_keyspace_for_all_pools',
                 thorough='same'),
     assumptions=['a node answers each USE once'],
     stubs=['transport/timers/executor: harness kit', 'codec: identity', 'Event.wait: scripted server answers'],
@@ -51,7 +51,7 @@ def _is_use(p):
     return getattr(p[3], 'query', None) is not None and isinstance(p[3].query, str) and p[3].query.startswith('USE')
 
 
-def h_switch(V, npools=2, v2=False, twice=False, race=False):
+def h_switch(V, npools=2, v2=False, twice=False, race=False, membership=False):
     ccluster.Event = ServedEvent
     cconn.Event = ServedEvent
     ServedEvent.serve = None
@@ -95,6 +95,17 @@ def h_switch(V, npools=2, v2=False, twice=False, race=False):
                 pool._connection = None
         V.tag('pool%d' % i, cond)
     done = []
+    if membership:
+        # a node goes down (its pool is removed from the session, as Session.on_down does) at an acquire/release of the
+        # session lock inside _set_keyspace_for_all_pools
+        from harness import kit
+
+        def node_down(*a):
+            h = world.hosts[V.choice('host_down', len(world.hosts))]
+            V.tag('node_down', str(h.endpoint.address))
+            session._pools.pop(h, None)
+        mpre = kit.Preempter(V, ('_set_keyspace_for_all_pools',), node_down)
+        session._lock = kit.SchedLock('session._lock', mpre)
     ccluster.Session._set_keyspace_for_all_pools(session, 'ks2', lambda errors: done.append(errors))
     # the USE requests are answered in any order
     for step in range(8):
@@ -159,6 +170,7 @@ def jobs(tier):
         js.append(Job('v2-pools%d' % n, 'h_switch', dict(npools=n, v2=True, twice=(n < 2)), o))
     # the event loop answers a USE (or the connection fails) while the switching thread is still working through the pools
     js.append(Job('race-pools2', 'h_switch', dict(npools=2, race=True), o))
+    js.append(Job('membership-race', 'h_switch', dict(npools=2, membership=True), o))
     if tier != 'quick':
         js.append(Job('race-pools3', 'h_switch', dict(npools=3, race=True), o))
     return js
